@@ -57,6 +57,7 @@ type CallRecord struct {
 	ExpectClientGot string `json:"expect_client_got,omitempty"`
 	ExpectStatus    int    `json:"expect_status"`
 	ExpectErrClass  string `json:"expect_err_class,omitempty"`
+	MayRefuse       bool   `json:"may_refuse,omitempty"` // a value contains its style's delimiter: an error is as good as exact delivery
 }
 
 func (r *CallRecord) fire() { r.fired.Store(true) }
@@ -462,6 +463,41 @@ func (c *callInfo) CallReader() string {
 	return c.Rec.Call.Reader
 }
 
+func (handler) EchoWild(ctx context.Context, req *api.EchoWildReqWithContentType) (*api.EchoWildOK, error) {
+	yield(ctx)
+	b, err := io.ReadAll(req.Content)
+	rerr := ""
+	if err != nil {
+		rerr = "read error"
+	}
+	saw(ctx, canon(struct {
+		CT  string
+		Sum string
+		Len int
+		Err string
+	}{req.ContentType, sum(b), len(b), rerr}))
+	if err != nil {
+		return nil, errors.New("request stream broke")
+	}
+	return &api.EchoWildOK{Sum: sum(b), Len: len(b), Ctype: req.ContentType}, nil
+}
+
+func paramsEcho(p api.EchoParamsParams) *api.EchoParamsOK {
+	return &api.EchoParamsOK{Names: p.Names, Nums: p.Nums, Lab: p.Lab, Csv: p.Csv, Pipe: p.Pipe, One: p.One, Xlist: p.XList, Xone: p.XOne, Ck: p.Ck}
+}
+
+func (handler) EchoParams(ctx context.Context, params api.EchoParamsParams) (*api.EchoParamsOK, error) {
+	yield(ctx)
+	saw(ctx, canon(params))
+	return paramsEcho(params), nil
+}
+
+// text values for parameters: the core domain (non-empty, without any style's delimiter) and values that
+// contain a delimiter (which a side may refuse, but never change).
+var coreTexts = []string{"a b", "x+y", "p%q", "u/v", "k=v", "q?r#s&t", "tab\there", "é✓ü", "100%", "a  b", "%41", "+", "~_-"}
+var delimTexts = []string{"Smith, John", "a;b", "a.b", "a|b", ",", "x,", ";id=y", "a,b;c.d|e"}
+var headerTexts = []string{"h v", "x+y", "p%q", "k=v", "q?r#s&t", "a  b", "%41", "(h)"}
+
 func variantFor(want int, token string) (api.VariantsRes, error) {
 	switch {
 	case want == 200:
@@ -822,6 +858,71 @@ func doCall(ctx context.Context, c *api.Client, rec *CallRecord) {
 			rec.ExpectClientGot = canon(api.SecureOK{Who: params.Who, Via: via})
 		}
 		res, err := c.Secure(ctx, params)
+		finish(rec, res, err)
+	case "echoWild":
+		cts := []string{"application/octet-stream", "application/x-sim", "application/vnd.sim+bin", "application/json"}
+		ct := cts[r.intn(len(cts))]
+		sizes := []int{0, 1, 50, 3000}
+		b := payload("wild-"+tag, sizes[r.intn(len(sizes))])
+		rec.ExpectServerSaw = canon(struct {
+			CT  string
+			Sum string
+			Len int
+			Err string
+		}{ct, sum(b), len(b), ""})
+		rec.ExpectClientGot = canon(api.EchoWildOK{Sum: sum(b), Len: len(b), Ctype: ct})
+		rec.ExpectStatus = 200
+		res, err := c.EchoWild(ctx, &api.EchoWildReqWithContentType{ContentType: ct, Content: api.EchoWildReq{Data: streamReader(call.Reader, b)}})
+		finish(rec, res, err)
+	case "echoParams":
+		delim := call.Invalid == "delim"
+		text := func() string {
+			if delim && r.intn(2) == 0 {
+				return delimTexts[r.intn(len(delimTexts))] + " " + tag
+			}
+			return coreTexts[r.intn(len(coreTexts))] + " " + tag
+		}
+		list := func(n int) []string {
+			var out []string
+			for i := 0; i < n; i++ {
+				out = append(out, text())
+			}
+			return out
+		}
+		params := api.EchoParamsParams{Names: list(1 + r.intn(3)), Lab: list(1 + r.intn(3))}
+		for i, n := 0, 1+r.intn(3); i < n; i++ {
+			params.Nums = append(params.Nums, r.intn(1<<30)-(1<<29))
+		}
+		if r.coin() {
+			params.Csv = list(1 + r.intn(3))
+		}
+		if r.coin() {
+			params.Pipe = list(1 + r.intn(3))
+		}
+		if r.coin() {
+			params.One.SetTo(text())
+		}
+		if r.coin() {
+			for i, n := 0, 1+r.intn(3); i < n; i++ {
+				h := headerTexts[r.intn(len(headerTexts))] + " " + tag
+				if delim && r.intn(2) == 0 {
+					h = "x, y " + tag
+				}
+				params.XList = append(params.XList, h)
+			}
+		}
+		if r.coin() {
+			params.XOne.SetTo(headerTexts[r.intn(len(headerTexts))] + " " + tag)
+		}
+		if r.coin() {
+			params.Ck.SetTo(text())
+		}
+		rec.MayRefuse = delim
+		rec.Call.Invalid = "" // not an invalid request in the validation sense
+		rec.ExpectServerSaw = canon(params)
+		rec.ExpectClientGot = canon(*paramsEcho(params))
+		rec.ExpectStatus = 200
+		res, err := c.EchoParams(ctx, params)
 		finish(rec, res, err)
 	case "secure2":
 		params := api.Secure2Params{Who: "w2 " + tag}
